@@ -62,7 +62,9 @@ def l1(ctx, rid):
                 for t in prog.resolve(a.start):
                     if t in prog.fns and any('Receiver::<T>::recv' in e for e in E.get(t, ())):
                         reach_recv = True
-            if reach_recv:
+            # the poll loop of a single `.await` (`self.process_until_stopped().await` in a `run` that delegates) is not a message loop
+            plumbing = all(c.name in ('poll', 'new_unchecked', 'get_context', 'into_future') for c in f.calls if c.bb in body)
+            if reach_recv and not plumbing:
                 cands.append((f, h, body))
     # keep outermost loops only (exclude poll loops: their body is inside)
     main = [(f, h, b) for (f, h, b) in cands if not any(f2 is f and b < b2 for (f2, h2, b2) in cands)]
@@ -302,7 +304,7 @@ def l5(ctx, rid):
                 # the condition is handed in by the caller (the request lives in a helper): follow the argument
                 for o2 in core.origins_ip(prog, f, b['t']['o'], depth=2):
                     if o2.kind == 'call':
-                        ogs = ogs + [o2] + core.origins_deep(prog, o2.fn, o2.data.dest[0], depth=3)
+                        ogs = ogs + [o2] + core.origins_deep(prog, o2.fn, o2.data.dest[0], depth=5)
             cond_calls = [o.data for o in ogs if o.kind == 'call']
             if not any(x.name in LIMITS for x in cond_calls):
                 continue
@@ -344,6 +346,21 @@ def l5(ctx, rid):
                 helper_root = prog.fns[r.fn.id].root
                 if any(helper_root in prog.resolve(x) and x.name != 'poll' and x.bb in f.reach_from([ob]) for x in f.calls):
                     good = True
+                # write phase and notification phase are siblings called one after the other (`write_under_lock(..)?` then
+                # `notify_after_write(&outcome)`): in a common caller the call of the request's body follows the ok completion of
+                # the call of this body on every path to an ok return
+                fr = prog.fns[f.id].root
+                for g in prog.fns.values():
+                    if good or not g.file.startswith('src/storage/'):
+                        continue
+                    ca = [x for x in g.calls if x.bb in g.reachable() and x.name != 'poll' and fr in prog.resolve(x)]
+                    cb = [x for x in g.calls if x.bb in g.reachable() and x.name != 'poll' and helper_root in prog.resolve(x)]
+                    if not ca or not cb:
+                        continue
+                    ex_g = [bb for (bb, k, _) in core.exit_defs(g) if k in ('ok', 'fwd', 'val') and bb in g.reachable()]
+                    oka = core.ok_block(g, ca[0]) or core.completion_block(g, ca[0])
+                    if oka is not None and not any(e in g.reach_from([oka], avoid_exit=[x.bb for x in cb]) for e in ex_g):
+                        good = True
             if good:
                 ctx.ok(rid, key, c.where(), 'size/count condition evaluated after every ok write; its true edge always sends the rotation request')
             else:
@@ -580,6 +597,11 @@ def l14(ctx, rid):
                 continue
             n += 1
             key = 'old-state-not-dropped|%s' % prog.fns[f.id].root
+            rootf = prog.fns.get(prog.fns[f.id].root)
+            if rootf is not None and rootf.argc >= 1 and rootf.locals[1]['s'].startswith('storage::observer::Observer<'):
+                # the observer itself is consumed (`shutdown(mut self)`): ending the running worker is what this body is for
+                ctx.ok(rid, key, c.where(), 'the observer is taken by value: a terminal transition', nontrivial=False)
+                continue
             carry = core.flows_forward(f, c.dest[0])
             other_edges = []
             found = False
